@@ -1607,6 +1607,12 @@ class MEDDLY::forest {
         /// Mark all registered dd_edges.
         void markAllRoots();
 
+#ifdef MEDDLY_VERIF
+        /// Verification hook: append the root node of every registered
+        /// dd_edge (one entry per edge, so nodes may repeat).
+        void verifRoots(std::vector<node_handle> &out) const;
+#endif
+
     // ------------------------------------------------------------
     private: // Private methods for root edge registry
     // ------------------------------------------------------------
